@@ -29,6 +29,8 @@ type Global struct {
 	axioms   []PkgDecl
 	compKT   map[string]compKT
 	cha      map[string][]*ssa.Function
+	protects []protectDecl
+	inherited map[*ssa.Function]*FuncContract
 }
 
 func fullTypeKey(t types.Type) string {
@@ -84,7 +86,7 @@ func newGlobal(prog *ssa.Program, pkgs []*packages.Package, cs *Contracts) *Glob
 	g := &Global{prog: prog, pkgs: pkgs, cs: cs, spkgs: map[string]*ssa.Package{},
 		funcKey: map[*ssa.Function]string{}, keyFunc: map[string]*ssa.Function{},
 		tags: map[string]int{}, escField: map[string]bool{}, modsets: map[*ssa.Function]*ModSet{},
-		typeinvs: map[string][]PkgDecl{}, ghostFields: map[string]map[string]string{}, globalIdx: map[*ssa.Global]int{}, compKT: map[string]compKT{}}
+		typeinvs: map[string][]PkgDecl{}, ghostFields: map[string]map[string]string{}, globalIdx: map[*ssa.Global]int{}, compKT: map[string]compKT{}, inherited: map[*ssa.Function]*FuncContract{}}
 	for _, p := range prog.AllPackages() {
 		g.spkgs[p.Pkg.Path()] = p
 	}
@@ -194,6 +196,7 @@ func newGlobal(prog *ssa.Program, pkgs []*packages.Package, cs *Contracts) *Glob
 			g.axioms = append(g.axioms, d)
 		}
 	}
+	g.parseProtects()
 	return g
 }
 
@@ -274,7 +277,10 @@ func (g *Global) tagOf(t types.Type) int {
 
 func (g *Global) contractFor(fn *ssa.Function) *FuncContract {
 	if k, ok := g.funcKey[fn]; ok {
-		return g.cs.Funcs[k]
+		if c := g.cs.Funcs[k]; c != nil {
+			return c
+		}
+		return g.inheritedContract(fn)
 	}
 	// generic instantiation or wrapper: try origin
 	if o := fn.Origin(); o != nil && o != fn {
@@ -285,4 +291,77 @@ func (g *Global) contractFor(fn *ssa.Function) *FuncContract {
 
 func (g *Global) describe() string {
 	return fmt.Sprintf("%d functions, %d type tags, %d escaping fields", len(g.allFuncs), len(g.tags), len(g.escField))
+}
+
+
+// inheritedContract: a method without its own contract inherits the contract of an
+// interface method it implements (behavioural subtyping). The copy carries positional
+// aliases so that the interface's parameter names resolve in the implementation.
+func (g *Global) inheritedContract(fn *ssa.Function) *FuncContract {
+	if c, ok := g.inherited[fn]; ok {
+		return c
+	}
+	g.inherited[fn] = nil
+	recv := fn.Signature.Recv()
+	if recv == nil || fn.Synthetic != "" {
+		return nil
+	}
+	var keys []string
+	for k, c := range g.cs.Funcs {
+		if c.Assumed {
+			continue
+		}
+		if strings.HasSuffix(k, "."+fn.Name()) {
+			keys = append(keys, k)
+		}
+	}
+	sort.Strings(keys)
+	for _, k := range keys {
+		i := strings.LastIndex(k, ".")
+		j := strings.LastIndex(k[:i], ".")
+		if j < 0 {
+			continue
+		}
+		pkg, tn := k[:j], k[j+1:i]
+		sp := g.spkgs[pkg]
+		if sp == nil {
+			continue
+		}
+		o := sp.Pkg.Scope().Lookup(tn)
+		if o == nil {
+			continue
+		}
+		iface, ok := o.Type().Underlying().(*types.Interface)
+		if !ok {
+			continue
+		}
+		if !types.Implements(recv.Type(), iface) {
+			continue
+		}
+		// find the interface method for parameter names
+		var im *types.Func
+		for m := 0; m < iface.NumMethods(); m++ {
+			if iface.Method(m).Name() == fn.Name() {
+				im = iface.Method(m)
+			}
+		}
+		if im == nil {
+			continue
+		}
+		base := g.cs.Funcs[k]
+		cp := *base
+		cp.IfaceKey = k
+		cp.Aliases = []string{"self"}
+		ps := im.Type().(*types.Signature).Params()
+		for p := 0; p < ps.Len(); p++ {
+			n := ps.At(p).Name()
+			if n == "" || n == "_" {
+				n = fmt.Sprintf("arg%d", p)
+			}
+			cp.Aliases = append(cp.Aliases, n)
+		}
+		g.inherited[fn] = &cp
+		return &cp
+	}
+	return nil
 }
